@@ -575,6 +575,7 @@ type PayloadAdvance struct {
 	Taint    bool
 	AltArith bool // a dominating condition constrains n's source through different arithmetic
 	Loop     bool // n depends on a phi (loop-carried or merged value): no definite verdict
+	Merged   bool // N is the smallest incoming value of a plain merge
 }
 
 // PayloadAdvances finds X[n:...] slices of the function's byte-slice parameter
@@ -623,7 +624,30 @@ func PayloadAdvances(fn *ssa.Function, data *ssa.Parameter) []PayloadAdvance {
 				}
 				nv, nb = sv, sb
 			}
-			pa := PayloadAdvance{At: sl, N: nv, Taint: taintedFwd(fn, nv, 0)}
+			// a plain merge (no back edge) of several candidate offsets: the smallest one decides,
+			// unless a test of the merged value itself already gives n >= 1
+			merged := false
+			if ph, ok := stripConv(nv).(*ssa.Phi); ok && fi.intLB(nv, nb, 0) < 1 {
+				loop := false
+				for _, pr := range ph.Block().Preds {
+					if ph.Block().Dominates(pr) {
+						loop = true
+					}
+				}
+				if !loop {
+					bestE, bestB, bestLB := ssa.Value(nil), (*ssa.BasicBlock)(nil), 1<<40
+					for i, e := range ph.Edges {
+						if l := fi.intLB(e, ph.Block().Preds[i], 0); l < bestLB {
+							bestE, bestB, bestLB = e, ph.Block().Preds[i], l
+						}
+					}
+					if bestE != nil {
+						nv, nb = bestE, bestB
+						merged = true
+					}
+				}
+			}
+			pa := PayloadAdvance{At: sl, N: nv, Taint: taintedFwd(fn, nv, 0), Merged: merged}
 			pa.LB = fi.intLB(nv, nb, 0)
 			fi.ignoreWrap = true
 			pa.LBNoWrap = fi.intLB(nv, nb, 0)
@@ -984,6 +1008,73 @@ func NarrowLengthOps(fn *ssa.Function, root *RootInfo) []NarrowOp {
 				if lo, ok := constInt(sl.Low); ok && lo >= 1 && ub >= m+1-k {
 					no.Definite = true
 					no.Witness = fmt.Sprintf("field value %d makes the high bound 0, below the low bound %d", m+1-k, lo)
+				}
+			}
+			if !no.Definite && bo.Op == token.ADD {
+				// the wrapped sum, widened, is the high bound of some x[lo:sum] with constant lo >= 1
+				// and nothing compares it with a constant first (a test of len against the sum does
+				// not help: the wrapped sum is small)
+				var vals []ssa.Value
+				vals = append(vals, bo)
+				for i := 0; i < len(vals) && i < 8; i++ {
+					if refs := vals[i].Referrers(); refs != nil {
+						for _, ref := range *refs {
+							switch y := ref.(type) {
+							case *ssa.Convert:
+								vals = append(vals, y)
+							case *ssa.ChangeType:
+								vals = append(vals, y)
+							}
+						}
+					}
+				}
+				isVal := func(v ssa.Value) bool {
+					for _, x := range vals {
+						if v == x {
+							return true
+						}
+					}
+					return false
+				}
+				for _, v := range vals {
+					refs := v.Referrers()
+					if refs == nil {
+						continue
+					}
+					for _, ref := range *refs {
+						sl, ok := ref.(*ssa.Slice)
+						if !ok || sl.High != v || sl.Low == nil {
+							continue
+						}
+						lo, ok := constInt(sl.Low)
+						if !ok || lo < 1 || ub < m+1-k {
+							continue
+						}
+						guarded := false
+						for x := sl.Block(); x != nil; x = x.Idom() {
+							if len(x.Preds) != 1 {
+								continue
+							}
+							pb := x.Preds[0]
+							iff, ok := pb.Instrs[len(pb.Instrs)-1].(*ssa.If)
+							if !ok {
+								continue
+							}
+							if c, ok := iff.Cond.(*ssa.BinOp); ok {
+								_, kx := constInt(c.X)
+								_, ky := constInt(c.Y)
+								if (isVal(c.X) && ky) || (isVal(c.Y) && kx) {
+									guarded = true
+								}
+							}
+						}
+						if !guarded {
+							no.Definite = true
+							no.Use = sl
+							no.What = "slice bound"
+							no.Witness = fmt.Sprintf("field value %d makes the high bound 0, below the low bound %d", m+1-k, lo)
+						}
+					}
 				}
 			}
 			out = append(out, no)
